@@ -30,6 +30,9 @@ pub enum Op {
 	UnsetErrH,
 	/// hook H2: a `run` marker sent with an explicit priority (0 normal, 1 high, 2 urgent)
 	MarkerPrio(u8),
+	/// the public but "internal detail" control `ContinueTryGracefulRestart` sent directly (C04 only: judged by the
+	/// invariant monitor, the reference model does not describe it)
+	Continue,
 }
 
 impl Op {
@@ -55,6 +58,7 @@ impl Op {
 			Op::MarkerPrio(0) => "marker_normal",
 			Op::MarkerPrio(1) => "marker_high",
 			Op::MarkerPrio(_) => "marker_urgent",
+			Op::Continue => "continue_try_graceful_restart",
 		}
 	}
 
@@ -104,6 +108,7 @@ impl Op {
 			"set_error_handler" => Op::SetErrH(v["id"].as_u64().unwrap_or(0) as u32),
 			"unset_error_handler" => Op::UnsetErrH,
 			"marker" => Op::MarkerPrio(v["prio"].as_u64().unwrap_or(0) as u8),
+			"continue_try_graceful_restart" => Op::Continue,
 			_ => return None,
 		})
 	}
